@@ -62,7 +62,7 @@ def check_memory_near_wrap(c):
 
 def enum_memory_near_wrap(tier, shard, nshards, rng):
     i = 0
-    for w in list(range(1, 65)):
+    for w in list(range(1, 65)) + [65, 70, 72, 80, 96, 100, 128]:
         for below in (1, 2, 3):
             i += 1
             if i % nshards == shard and below <= (1 << w):
@@ -282,7 +282,7 @@ def enum_file_long(tier, shard, nshards, rng):
         cases.append({"width": w, "start": (1 << w) - 3, "calls": 16, "restarts": [2, 3, 4, 9]})
     # wide counters (transaction / frame counters of 24..64 bit): the wrap is reached by starting just below it; beyond 2^53 integers
     # are no longer exactly representable in floating point
-    for w in (17, 24, 31, 32, 33, 48, 52, 53, 54, 55, 56, 60, 63, 64):
+    for w in (17, 24, 31, 32, 33, 48, 52, 53, 54, 55, 56, 60, 63, 64, 65, 69, 70, 72, 80, 96, 100, 128):  # "all widths": decimal counts of 20 .. 39 digits
         cases.append({"width": w, "start": (1 << w) - 3, "calls": 9, "restarts": [1, 3, 4]})
     if tier == "thorough":
         calls = (1 << 14) + 3
@@ -302,13 +302,13 @@ def st_bad():
         mod = 1 << w
         bad_text = st.one_of(
             st.sampled_from(["", "\n", "\n5\n", "abc\n", "-1\n", "-0\n", "+3\n", "1.0\n", "0x1\n", "1e1\n", "1 2\n", "one\n", "--\n", "1,0\n", "1_0\n", "1_2_3\n", "0_0\n", " 1\n", "\t1\n", "1a\n", "1-\n", "0b1\n", "1.\n", "٣\n" if False else "1;\n"]).map(lambda s: {"text": s}),
-            st.one_of(st.just(mod), st.just(mod + 1), st.integers(mod, mod * 4 + 10), st.just(10**30)).map(lambda v: {"text": f"{v}\n"}),
+            st.one_of(st.just(mod), st.just(mod + 1), st.integers(mod, mod * 4 + 10), st.just(mod * 10**9 + 7)).map(lambda v: {"text": f"{v}\n"}),
             st.sampled_from(["ff0a", "c3280a", "80", "fffe300a", "e2820a"]).map(lambda h: {"hex": h}),
         )
         return st.fixed_dictionaries({"k": st.just("content"), "width": st.just(w), "bad": bad_text, "calls_before": st.integers(0, 3)})
 
     missing = st.fixed_dictionaries({"k": st.just("missing"), "width": st.sampled_from([1, 3, 14]), "calls_before": st.integers(0, 3)})
-    return st.one_of(st.sampled_from([1, 2, 3, 8, 14]).flatmap(for_width), st.sampled_from([1, 2, 3, 8, 14, 16, 32, 53, 54, 56, 63, 64]).flatmap(for_width), missing)
+    return st.one_of(st.sampled_from([1, 2, 3, 8, 14]).flatmap(for_width), st.sampled_from([1, 2, 3, 8, 14, 16, 32, 53, 54, 56, 63, 64, 70, 72, 100, 128]).flatmap(for_width), missing)
 
 
 def check_bad(c):
@@ -381,8 +381,8 @@ CLAUSES = [
         kind="enum",
         enum=enum_memory_near_wrap,
         check=check_memory_near_wrap,
-        classify=lambda c: ["width <= 16" if c["width"] <= 16 else ("width 17..53" if c["width"] <= 53 else "width 54..64")],
-        required=["width <= 16", "width 17..53", "width 54..64"],
+        classify=lambda c: ["width <= 16" if c["width"] <= 16 else ("width 17..53" if c["width"] <= 53 else ("width 54..64" if c["width"] <= 64 else "width > 64"))],
+        required=["width <= 16", "width 17..53", "width 54..64", "width > 64"],
         shards={"quick": 2, "thorough": 4},
         weight_by_evals=True,
     ),
@@ -403,7 +403,7 @@ CLAUSES = [
         enum=enum_file_long,
         check=check_file_long,
         classify=lambda c: [f"width {c['width']}"] + (["restart at every call"] if len(c["restarts"]) == c["calls"] else []),
-        required=["width 14", "width 7", "width 16", "width 32", "width 54", "width 64", "restart at every call"],
+        required=["width 14", "width 7", "width 16", "width 32", "width 54", "width 64", "width 72", "width 128", "restart at every call"],
         shards={"quick": 4, "thorough": 16},
     ),
     Clause(
